@@ -105,6 +105,45 @@ def run(ctx):
 
     # ---- 4. in situ: the real decoder's own reads -------------------------------------------------
     insitu(ctx)
+    # ---- 5. the repository's own tests with the contracts armed -------------------------------------
+    if ctx.mine(7):
+        repo_tests_under_contracts(ctx)
+
+
+def repo_tests_under_contracts(ctx):
+    """pytest in a child process with vmon.pytest_plugin: every read the repository's tests cause is judged too"""
+    import json
+    import subprocess
+    import sys
+    import tempfile
+    from vmon import core
+    sel = ["tests/unit/test_packets.py", "tests/unit/test_xtce/test_encodings.py", "tests/unit/test_xtce/test_parameter_types.py"] \
+        if ctx.quick else ["tests/unit", "tests/integration"]
+    fd, out = tempfile.mkstemp(prefix="vmon-plugin-", suffix=".json", dir=os.environ.get("VMON_SCRATCH"))
+    os.close(fd)
+    env = dict(os.environ, VMON_PLUGIN_OUT=out)
+    p = subprocess.run([sys.executable, "-m", "pytest", "-q", "-p", "no:cacheprovider", "-p", "no:randomly", "-p", "vmon.pytest_plugin",
+                        "--timeout=900"] + sel, cwd=core.REPO, env=env, capture_output=True, text=True, timeout=3000)
+    try:
+        with open(out) as f:
+            res = json.load(f)
+    except (OSError, ValueError):
+        ctx.note("repo tests under contracts: no plugin output (pytest rc=%s) %s" % (p.returncode, p.stdout[-300:]))
+        return
+    finally:
+        if os.path.exists(out):
+            os.unlink(out)
+    n = 0
+    for k, v in res["counters"].items():
+        if k.endswith(".evaluations"):
+            ctx.count("repotests." + k, v)
+            n += v
+    ctx.count("evaluations", n)
+    ctx.count("repotests.pytest_exitstatus", res["counters"].get("pytest.exitstatus", 0))
+    ctx.count("repotests.tests_collected", res["counters"].get("pytest.tests_collected", 0))
+    for key, v in res["violations"].items():
+        for w in v["witnesses"][:2]:
+            ctx.violation("repotests/" + key, v["msg"], w.get("witness"))
 
 
 def insitu(ctx):
